@@ -28,7 +28,9 @@ def make_pool():
     g2 = nx.DiGraph()
     for u, v, f in [("a", "b", 5), ("b", "c", 2), ("b", "d", 3), ("c", "d", 2), ("d", "e", 5)]:
         g2.add_edge(u, v, flow=f)
-    return {"g1": g1, "g2": g2, "o1": {}, "o2": {"optimize_with_safe_paths": False, "optimize_with_safe_zero_edges": False},
+    g3 = g1.copy()
+    g3["b"]["d"]["flow"] = -1            # invalid unless that edge is ignored / has error scale 0
+    return {"g1": g1, "g2": g2, "g3": g3, "e1": {("b", "d"): 0}, "o1": {}, "o2": {"optimize_with_safe_paths": False, "optimize_with_safe_zero_edges": False},
             "s1": {"threads": 1}, "c1": [[("a", "b"), ("b", "c")]], "i1": [("b", "d")]}
 
 
@@ -44,7 +46,7 @@ def dump(o):
     return hashlib.sha1(s.encode()).hexdigest()[:12]
 
 
-def build(fp, cls_idx, pool, g, o, s, c, i):
+def build(fp, cls_idx, pool, g, o, s, c, i, e="omit"):
     name, extra = CLASSES[cls_idx - 1]
     cyc = name.endswith("Cycles")
     kw = {"G": pool[g]}
@@ -60,6 +62,8 @@ def build(fp, cls_idx, pool, g, o, s, c, i):
         kw["subset_constraints" if cyc else "subpath_constraints"] = pool[c]
     if i != "omit":
         kw["elements_to_ignore"] = pool[i]
+    if e != "omit" and (name.startswith("kLeastAbs") or name.startswith("kMinPathError")):
+        kw["error_scaling"] = pool[e]
     return getattr(fp, name)(**kw)
 
 
@@ -109,14 +113,14 @@ def run_instance(inst):
     for op in inst["ops"]:
         ev = {"op": op[0], "m": op[1], "res": None, "ref": None}
         if op[0] == "construct":
-            _, m, cls, g, o, s, c, i = op
-            res, model = run_one(fp, cls, pool, (g, o, s, c, i))
+            _, m, cls, g, o, s, c, i, e = op
+            res, model = run_one(fp, cls, pool, (g, o, s, c, i, e))
             slots[m] = (model, res)
             # the same construction in a fresh, isolated history (fresh copies of the argument values)
-            ref, _ = run_one(fp, cls, make_pool(), (g, o, s, c, i))
+            ref, _ = run_one(fp, cls, make_pool(), (g, o, s, c, i, e))
             ev["res"], ev["ref"] = res, ref
             ev["cls"] = CLASSES[cls - 1][0]
-            ev["args"] = [g, o, s, c, i]
+            ev["args"] = [g, o, s, c, i, e]
         elif op[0] == "solve":
             model, res = slots.get(op[1], (None, None))
             if model is not None:
@@ -125,7 +129,9 @@ def run_instance(inst):
                     again = result_of(model)
                     ev["res"] = dict(res, resolve_same=(again["solved"] == res["solved"] and again["obj"] == res["obj"] and again["count"] == res["count"]))
                 except BaseException as e:
-                    ev["res"] = dict(res, resolve_same=False, resolve_exc=type(e).__name__)
+                    # a repeated solve() that fails exactly as the first one did reproduces the first outcome
+                    same = res.get("ctor_exc") == "solve:" + type(e).__name__
+                    ev["res"] = dict(res, resolve_same=same, resolve_exc=type(e).__name__)
         cur = {k: dump(v) for k, v in pool.items()}
         ev["changed"] = sorted(k for k in cur if cur[k] != dump0[k])
         if ev["res"] is None:
